@@ -69,6 +69,9 @@ pub fn check_source(src: &str, binds: &[(String, crate::val::V)], sub: &str, cla
                 json!({"source": src, "bytecode": rendering, "blocks": st.blocks, "jumps": st.jumps, "max_stack": st.max_height})
             });
         }
+        Err(e) if e.starts_with(bcv::UNKNOWN_OPCODE) => {
+            acc.skip("program uses an instruction the verifier does not know: only the dynamic check applies");
+        }
         Err(e) => {
             out.push(Failure::new(
                 format!("c10:static:{}", e.split(':').nth(1).unwrap_or("").trim().split(' ').take(3).collect::<Vec<_>>().join("-")),
